@@ -12,8 +12,9 @@ class C25(Prop):
                   "over recording fake layers run on the same operation sequences (read results, per-layer call log, "
                   "final memories compared). No axioms.")
     TECHNIQUE = "Coq proof (association-list refinement to one-at-a-time reads/writes) + model/implementation correspondence"
-    RULE = ("2-8 registers assigned to 1-4 layers, sequences of 1-6 batch reads/writes with random orders, repeated "
-            "registers within and across batches, occasional unequal lengths; non-trivial = at least 2 layers used and "
+    RULE = ("2-8 registers assigned to 1-4 layers, sequences of 1-8 batch reads/writes with random orders, repeated "
+            "registers within and across batches, values that recur (a batch may rewrite an earlier value), single "
+            "read/write calls and device-side changes between batches, occasional unequal lengths; non-trivial = at least 2 layers used and "
             "a read after a write; distinct by canonical JSON")
     QUICK_N = 2000
     THOROUGH_N = 50000
@@ -29,21 +30,32 @@ class C25(Prop):
             lay = [rng.randrange(nlay) for _ in range(nreg)]
             ops = []
             v = 0
-            for _ in range(rng.randint(1, 6)):
+            small = rng.random() < 0.6
+            for _ in range(rng.randint(1, 8)):
                 k = rng.randint(0, 6)
                 if rng.random() < 0.6:
                     regs = rng.sample(range(nreg), min(k, nreg))
                 else:
                     regs = [rng.randrange(nreg) for _ in range(k)]
-                if rng.random() < 0.5:
+                x = rng.random()
+                if x < 0.4:
                     ops.append(["R", regs])
-                else:
+                elif x < 0.75:
                     nv = len(regs) if rng.random() < 0.9 else max(0, len(regs) + rng.choice([-1, 1]))
                     vals = []
                     for _ in range(nv):
-                        v += 1
-                        vals.append(v)
+                        if small:
+                            vals.append(rng.randint(1, 3))      # values recur: a write may repeat an earlier one
+                        else:
+                            v += 1
+                            vals.append(v)
                     ops.append(["W", vals, regs])
+                elif x < 0.83:
+                    ops.append(["R1", rng.randrange(nreg)])
+                elif x < 0.92:
+                    ops.append(["W1", rng.randint(1, 3) if small else 100 + len(ops), rng.randrange(nreg)])
+                else:
+                    ops.append(["X", rng.randint(1, 3) if small else 200 + len(ops), rng.randrange(nreg)])
             out.append([lay, ops])
         return out
 
@@ -83,8 +95,16 @@ class C25(Prop):
         for o in ops:
             if o[0] == "R":
                 outs.append(list(hwl.read_batch([regs[i] for i in o[1]])))
-            else:
+            elif o[0] == "W":
                 hwl.write_batch(o[1], [regs[i] for i in o[2]])
+                outs.append([])
+            elif o[0] == "R1":
+                outs.append([hwl.read(regs[o[1]])])
+            elif o[0] == "W1":
+                hwl.write(o[1], regs[o[2]])
+                outs.append([])
+            else:
+                layers[lay[o[2]]].write(o[1], regs[o[2]])
                 outs.append([])
         mem = [layers[lay[i]].read(regs[i]) for i in range(len(lay))]
         return [outs, log, mem]
@@ -96,6 +116,12 @@ class C25(Prop):
             return lst([f"{x}%nat" for x in xs])
 
         def op(o):
+            if o[0] == "R1":
+                return f"Read1 {o[1]}%nat"
+            if o[0] == "W1":
+                return f"Write1 {z(o[1])} {o[2]}%nat"
+            if o[0] == "X":
+                return f"Ext {z(o[1])} {o[2]}%nat"
             return f"Read {nl(o[1])}" if o[0] == "R" else f"Write {zl(o[1])} {nl(o[2])}"
         return tup(nl(lay), lst([op(o) for o in ops]))
 
@@ -111,14 +137,14 @@ class C25(Prop):
             return False
         seen_w = False
         for o in ops:
-            if o[0] == "W" and o[1] and o[2]:
+            if o[0] in ("W", "W1", "X") and o[1] and (o[0] != "W" or o[2]):
                 seen_w = True
-            if o[0] == "R" and seen_w and o[1]:
+            if o[0] in ("R", "R1") and seen_w and (o[0] == "R1" or o[1]):
                 return True
         return False
 
     def kind(self, case, obs):
-        dup = any(len(set(o[-1])) < len(o[-1]) for o in case[1])
+        dup = any(len(set(o[-1])) < len(o[-1]) for o in case[1] if o[0] in ("R", "W"))
         return f"layers={len(set(case[0]))},dups={dup}"
 
 
